@@ -163,6 +163,9 @@ def cases(tier, seed):
         c["grid_size"] = r.choice([2, 3, 4, 5, 7, 9, 10, 13]) if r.chance(1, 2) else r.randint(2, 60)
         c["grid_limit"] = r.choice(LIMITS)
         c["constraint_weight"] = r.choice(WEIGHTS)
+        # a container estimator (sklearn Pipeline): its fitted state lives in NESTED objects, so every grid
+        # point needs a deep, independent copy of the estimator
+        c["wrap"] = "pipeline" if Rng(seed, PID, tier, "wrap", i).chance(1, 4) else None
         out.append(c)
     return out
 
@@ -202,7 +205,14 @@ def impl(case):
     from harness.learners import ExactLearner, CellMeanRegressor
     X, y, sf = _frame(case)
     reg = case["moment"] == "BoundedGroupLoss"
-    est = GridSearch(CellMeanRegressor() if reg else ExactLearner(), _moment(case),
+    base = CellMeanRegressor() if reg else ExactLearner()
+    kw = {}
+    if case.get("wrap") == "pipeline":
+        from sklearn.pipeline import Pipeline
+        from sklearn.preprocessing import FunctionTransformer
+        base = Pipeline([("id", FunctionTransformer()), ("clf", base)])
+        kw["sample_weight_name"] = "clf__sample_weight"
+    est = GridSearch(base, _moment(case), **kw,
                      constraint_weight=float(Fraction(case["constraint_weight"])),
                      grid_size=case["grid_size"], grid_limit=float(Fraction(case["grid_limit"])))
     try:
